@@ -1045,16 +1045,21 @@ class PiecewiseLinearCoalescentGrid(Distribution):
             internal_heights.shape
         )
 
-        # Integrate 1/N(t) over each interval
+        # Integrate 1/N(t) over each interval. N(t) is linear between two consecutive
+        # time points: the integral is interval/N_start * log(1+x)/x with
+        # x=(N_end-N_start)/N_start. A series is used when x is close to zero
+        # (constant or nearly constant population size) to avoid cancellation.
         intervals = grid_heights_sorted[..., 2:] - grid_heights_sorted[..., 1:-1]
-        diff_thetas = pop_sizes[..., 2:] - pop_sizes[..., 1:-1]
-        diff_log_thetas = log_pop_sizes[..., 2:] - log_pop_sizes[..., 1:-1]
-
-        # constant population size over the interval (equal adjacent thetas or
-        # beyond the last grid point)
-        integral = intervals / pop_sizes[..., 2:]
-        idx = (diff_thetas != 0.0).nonzero(as_tuple=True)
-        integral[idx] = intervals[idx] * diff_log_thetas[idx] / diff_thetas[idx]
+        pop_sizes_start = pop_sizes[..., 1:-1]
+        x = (pop_sizes[..., 2:] - pop_sizes_start) / pop_sizes_start
+        small = x.abs() < 1.0e-4
+        x_safe = torch.where(small, torch.ones_like(x), x)
+        ratio = torch.where(
+            small,
+            1.0 - x / 2.0 + x * x / 3.0 - x * x * x / 4.0,
+            torch.log1p(x_safe) / x_safe,
+        )
+        integral = intervals / pop_sizes_start * ratio
 
         return -torch.sum(
             lchoose2[..., 1:] * integral,
